@@ -397,6 +397,23 @@ func (g *Gen) Object(kind string, depth int) any {
 			g.Pairs[kind+"."+f.Name]++
 		}
 	}
+	if (kind == "Schema" || kind == "Schema2") && g.chance(8, "datelike") {
+		// date-like strings under a date-like format: the values a YAML decoder may have turned into
+		// timestamps. ("date" with an example ending in T00:00:00Z is left out: the parser trims
+		// that suffix on purpose, issue 697.)
+		switch rapid.IntRange(0, 3).Draw(g.T, "datecase") {
+		case 0:
+			out["format"], out["example"] = "date-time", "2020-01-01T00:00:00Z"
+		case 1:
+			out["format"], out["example"], out["default"] = "date-time", "2020-01-01T10:20:30Z", "2020-01-01T00:00:00Z"
+		case 2:
+			out["format"], out["example"] = "date", "2020-01-01"
+		default:
+			out["format"], out["default"] = "date", "2020-01-01T00:00:00Z"
+		}
+		out["type"] = "string"
+		delete(out, "enum")
+	}
 	g.extensions(out)
 	if !g.NoUnknown && g.chance(12, "unknown") {
 		out["unknownField"] = g.any_(false)
